@@ -88,6 +88,26 @@ theorem sliceV_arr {a fv tv : Val} {k : RKind} (hi : E .index) (ha : ArrOf a k)
     intro x hx
     exact hxs x (List.mem_of_mem_drop (List.mem_of_mem_take hx))
 
+theorem sliceV_coll {a fv tv : Val} {Va : VTy} (hi : E .index) (hVa : Va.isColl = true) (ha : ValOfV a Va)
+    (hf : ∃ kf, NumOf fv kf) (ht : ∃ kt, NumOf tv kt) : ROK E (fun v => ValOfV v Va) (sliceV a fv tv) := by
+  cases Va with
+  | sl k => exact sliceV_arr hi ha hf ht
+  | slo et =>
+    obtain ⟨tag, xs, rfl, hall⟩ := ha
+    obtain ⟨kf, hf⟩ := hf
+    obtain ⟨kt, ht⟩ := ht
+    obtain ⟨f, hf'⟩ := toIntR_num hf
+    obtain ⟨t, ht'⟩ := toIntR_num ht
+    simp only [sliceV, hf', ht']
+    refine rok_ite (fun _ => hi) (fun _ => ?_)
+    show ValOfV _ (.slo et)
+    exact ⟨tag, _, rfl, fun x hx => hall x (List.mem_of_mem_drop (List.mem_of_mem_take hx))⟩
+  | sc _ => cases hVa
+  | anys => cases hVa
+  | obj _ => cases hVa
+  | mapAny => cases hVa
+  | any => cases hVa
+
 theorem bound_spec2 (cfg : CheckCfg) (c : SCfg) (cs : List OTy) (b : Option Node)
     (ih : ∀ n, b = some n → Spec2 E cfg c cs n)
     (hb : ∀ n it, b = some n → synth cfg cs n = some it → ScalarT it ∧ isIntegerT it = true)
@@ -116,18 +136,22 @@ theorem bound_spec2 (cfg : CheckCfg) (c : SCfg) (cs : List OTy) (b : Option Node
       rw [hki] at ev
       exact ev
 
-theorem sliceResult_slice (dt : TDefects) {t : OTy} {k : RKind} (hk : sliceElemKind t = some k) :
+theorem sliceResult_slice (dt : TDefects) {t : OTy} {Va : VTy} (hk : vtyOf t = some Va) (hVa : Va.isColl = true) :
     sliceResult dt t = t := by
-  obtain ⟨ty, e, rfl, hc, _, _, hp, hkind⟩ := sliceElemKind_facts hk
+  obtain ⟨ty, rfl, hp, hkind⟩ := coll_shape hk hVa
   unfold sliceResult
   have hd : OTy.deref (some ty) = some ty := by
     simp only [OTy.deref, Ty.deref_of_not_isPtr hp]
   rw [hd]
   simp [hkind]
 
-theorem sliceable_slice (dt : TDefects) {t : OTy} {k : RKind} (hk : sliceElemKind t = some k) :
+theorem sliceable_slice (dt : TDefects) {t : OTy} {Va : VTy} (hk : vtyOf t = some Va) (hVa : Va.isColl = true) :
     sliceable dt t = true := by
-  obtain ⟨harr, et, hidx, _, _⟩ := slice_type_facts hk
+  have harr := coll_isArrayT hk hVa
+  obtain ⟨ty, rfl, hp, hkind⟩ := coll_shape hk hVa
+  have hidx : (indexTypeT (some ty)).isSome = true := by
+    unfold indexTypeT
+    simp [OTy.deref, Ty.deref_of_not_isPtr hp, hkind]
   unfold sliceable
   split <;> simp [hidx, harr]
 
@@ -135,7 +159,7 @@ theorem sliceable_slice (dt : TDefects) {t : OTy} {k : RKind} (hk : sliceElemKin
 theorem spec2_slice (hi : E .index) (cfg : CheckCfg) (c : SCfg) (cs : List OTy) (m : Meta) (x : Node)
     (f t : Option Node) (ihx : Spec2 E cfg c cs x)
     (ihf : ∀ n, f = some n → Spec2 E cfg c cs n) (iht : ∀ n, t = some n → Spec2 E cfg c cs n)
-    (hx : ∀ tx, synth cfg cs x = some tx → ∃ k, sliceElemKind tx = some k)
+    (hx : ∀ tx, synth cfg cs x = some tx → ∃ Va, vtyOf tx = some Va ∧ Va.isColl = true)
     (hf : ∀ n it, f = some n → synth cfg cs n = some it → ScalarT it ∧ isIntegerT it = true)
     (ht : ∀ n it, t = some n → synth cfg cs n = some it → ScalarT it ∧ isIntegerT it = true) :
     Spec2 E cfg c cs (.slice m x f t) := by
@@ -146,17 +170,17 @@ theorem spec2_slice (hi : E .index) (cfg : CheckCfg) (c : SCfg) (cs : List OTy) 
   | some tx =>
     rw [hsx] at hs
     simp only [] at hs
-    obtain ⟨k, hk⟩ := hx tx hsx
-    have hsl := sliceable_slice cfg.dt hk
+    obtain ⟨Va, hk, hVa⟩ := hx tx hsx
+    have hsl := sliceable_slice cfg.dt hk hVa
     rw [hsl, Bool.true_and] at hs
     by_cases hbs : (synthBound cfg cs f && synthBound cfg cs t) = true
     · rw [if_pos hbs] at hs
       simp only [Bool.and_eq_true] at hbs
-      rw [sliceResult_slice cfg.dt hk] at hs
+      rw [sliceResult_slice cfg.dt hk hVa] at hs
       cases hs
-      rw [vtyOf_slice_of hk] at hV
-      cases hV
-      obtain ⟨e1, _, ev1⟩ := ihx τ (.sl k) hsx (vtyOf_slice_of hk) st hst
+      have hVV : V = Va := by rw [hk] at hV; cases hV; rfl
+      subst hVV
+      obtain ⟨e1, _, ev1⟩ := ihx τ V hsx hk st hst
       have hc1 := visit_colls cfg x st
       rcases hxv : visit cfg x st with ⟨x', t', st1⟩
       rw [hxv] at e1 ev1 hc1
@@ -173,7 +197,7 @@ theorem spec2_slice (hi : E .index) (cfg : CheckCfg) (c : SCfg) (cs : List OTy) 
       simp only [] at ok3 hc3 hb3
       subst ok3
       simp only [visit, hxv, hsl, if_true, hfv, htv, Bool.not_true, Bool.false_eq_true, if_false,
-        sliceResult_slice cfg.dt hk]
+        sliceResult_slice cfg.dt hk hVa]
       refine ⟨trivial, setKd_kd _ _, ?_⟩
       apply smok_evalOKV
       intro ctx hctx
@@ -186,22 +210,22 @@ theorem spec2_slice (hi : E .index) (cfg : CheckCfg) (c : SCfg) (cs : List OTy) 
         cases t with
         | none => exact Or.inl hb3
         | some _ => exact Or.inr hb3
-      show SMOK E (fun v => ArrOf v k) (eval c ctx (.slice { m with kd := OTy.kind t' } x' f' t''))
-      have fin : ∀ a fv tv, ArrOf a k → (∃ kf, NumOf fv kf) → (∃ kt, NumOf tv kt) →
-          SMOK E (fun v => ArrOf v k) (SM.lift (sliceV a fv tv)) :=
-        fun a fv tv ha h1 h2 => smok_lift (sliceV_arr hi ha h1 h2)
-      have stepLen : ∀ (a : Val) (g : Int → SM Val), ArrOf a k → (∀ n, SMOK E (fun v => ArrOf v k) (g n)) →
-          SMOK E (fun v => ArrOf v k) (SM.lift (lengthV a) >>= g) := by
+      show SMOK E (fun v => ValOfV v V) (eval c ctx (.slice { m with kd := OTy.kind t' } x' f' t''))
+      have fin : ∀ a fv tv, ValOfV a V → (∃ kf, NumOf fv kf) → (∃ kt, NumOf tv kt) →
+          SMOK E (fun v => ValOfV v V) (SM.lift (sliceV a fv tv)) :=
+        fun a fv tv ha h1 h2 => smok_lift (sliceV_coll hi hVa ha h1 h2)
+      have stepLen : ∀ (a : Val) (g : Int → SM Val), ValOfV a V → (∀ n, SMOK E (fun v => ValOfV v V) (g n)) →
+          SMOK E (fun v => ValOfV v V) (SM.lift (lengthV a) >>= g) := by
         intro a g ha hg
-        obtain ⟨et, xs, rfl, _, _⟩ := ha
+        obtain ⟨et, xs, rfl⟩ := arr_of_collV hVa ha
         exact smok_bind (Qa := fun _ => True) (smok_lift trivial) (fun n _ => hg n)
       have stepPure : ∀ (v : Val) (g : Val → SM Val), (∃ kf, NumOf v kf) →
-          (∀ v, (∃ kf, NumOf v kf) → SMOK E (fun v => ArrOf v k) (g v)) →
-          SMOK E (fun v => ArrOf v k) (pure v >>= g) :=
+          (∀ v, (∃ kf, NumOf v kf) → SMOK E (fun v => ValOfV v V) (g v)) →
+          SMOK E (fun v => ValOfV v V) (pure v >>= g) :=
         fun v g hv hg => smok_bind (Qa := fun v => ∃ kf, NumOf v kf) (smok_pure hv) hg
       have stepEval : ∀ (n : Node) (ki : Kind) (g : Val → SM Val), EvalOKV E (CtxFor cs) c n (.sc (.num ki)) →
-          (∀ v, (∃ kf, NumOf v kf) → SMOK E (fun v => ArrOf v k) (g v)) →
-          SMOK E (fun v => ArrOf v k) (eval c ctx n >>= g) :=
+          (∀ v, (∃ kf, NumOf v kf) → SMOK E (fun v => ValOfV v V) (g v)) →
+          SMOK E (fun v => ValOfV v V) (eval c ctx n >>= g) :=
         fun n ki g ev hg => smok_bind (smok_mono (evalOKV_smok ev ctx hctx) (fun v hv => (⟨ki, hv⟩ : ∃ kf, NumOf v kf))) hg
       have zero : ∃ kf, NumOf (Val.int Kind.int 0) kf := ⟨.int, _, rfl⟩
       have intv : ∀ n : Int, ∃ kf, NumOf (Val.int Kind.int n) kf := fun n => ⟨.int, _, rfl⟩
